@@ -1,8 +1,28 @@
 import YowsupVerif.Model.Segments
+import YowsupVerif.Gen.SegmentsSrc
 namespace Yow.Drv
 open Yow Yow.Segments
 
 def showFrames (fs : List Bytes) : String := ",".intercalate (fs.map Hex.render)
+
+/-- the same call on the TRANSLATION of the current source (Gen/SegmentsSrc.lean): empty when it agrees with the model, otherwise what it
+    computes — so that a source whose translation no longer is the model shows up as a concrete input (and the real layer is compared with both) -/
+def srcRecvNote (s : St) (bs : Bytes) (mbuf : Bytes) (mup : List Bytes) : String :=
+  let g := Gen.SegSrc.runReceive (some s.enabled) s.buf bs
+  if Gen.SegSrc.bufOf g == mbuf && g.up == mup && g.low == [] && !g.raised && !g.fuelOut then ""
+  else s!";SOURCE-TRANSLATION up:{showFrames g.up};buf:{Hex.render (Gen.SegSrc.bufOf g)};low:{showFrames g.low};raised:{g.raised};fuelOut:{g.fuelOut}"
+
+/-- a write summarised: its length, and its bytes when it is a header (comparing megabyte lists element by element overflows the stack) -/
+def writeSummary (w : Bytes) : Nat × Bytes := (w.length, if w.length ≤ 3 then w else [])
+
+def srcSendNote (s : St) (p : Bytes) (m : SendOut) : String :=
+  let g := Gen.SegSrc.runSend (some s.enabled) s.buf p
+  let same : Bool := match m with
+    | .refused => g.raised
+    | .writes ws => !g.raised && g.low.map writeSummary == ws.map writeSummary &&
+        (p.length > 4096 || g.low.getLast? == ws.getLast?)
+  if same && (Gen.SegSrc.bufOf g).length == s.buf.length && g.up.isEmpty then ""
+  else s!";SOURCE-TRANSLATION raised:{g.raised};writes:{",".intercalate (g.low.map fun w => if w.length ≤ 3 then Hex.render w else toString w.length)}"
 
 def segStep (s : St) : List String → St × String
   | ["reset", e] => ({ enabled := e == "1", buf := [] }, "ok")
@@ -10,7 +30,7 @@ def segStep (s : St) : List String → St × String
     match Hex.toBytes? h with
     | some bs =>
       let r := recv s bs
-      (r.1, s!"up:{showFrames r.2};buf:{Hex.render r.1.buf}")
+      (r.1, s!"up:{showFrames r.2};buf:{Hex.render r.1.buf}" ++ srcRecvNote s bs r.1.buf r.2)
     | none => (s, "bad-op")
   | ["recvf", bads, h] =>
     -- receive with upward failures: `bads` = '+'-separated hex of the frames whose handling raises ("-" = none)
@@ -32,16 +52,16 @@ def segStep (s : St) : List String → St × String
     match Hex.toBytes? h with
     | some bs =>
       match send s.enabled bs with
-      | .refused => (s, "refused")
-      | .writes ws => (s, s!"writes:{showFrames ws}")
+      | .refused => (s, "refused" ++ srcSendNote s bs .refused)
+      | .writes ws => (s, s!"writes:{showFrames ws}" ++ srcSendNote s bs (.writes ws))
     | none => (s, "bad-op")
   | ["sendlen", n] =>
     match n.toNat? with
     | some k =>
       -- payload of k zero bytes; only lengths of the writes are reported
       match send s.enabled (List.replicate k 0) with
-      | .refused => (s, "refused")
-      | .writes ws => (s, s!"writes:{",".intercalate (ws.map fun w => if w.length ≤ 3 then Hex.render w else toString w.length)}")
+      | .refused => (s, "refused" ++ srcSendNote s (List.replicate k 0) .refused)
+      | .writes ws => (s, s!"writes:{",".intercalate (ws.map fun w => if w.length ≤ 3 then Hex.render w else toString w.length)}" ++ srcSendNote s (List.replicate k 0) (.writes ws))
     | none => (s, "bad-op")
   | _ => (s, "bad-op")
 
